@@ -30,7 +30,7 @@ Proof.
   - set (s' := with_globals s ((p, len (g_slots s)) :: g_bind s) (g_slots s ++ [VUndef])).
     assert (G : grow0 s s').
     { apply grow0_nostore; unfold s'; cbn [st hp scap g_slots with_globals]; auto; try lia; try (rewrite len_snoc; lia). }
-    cbn [npost]. split; [|split; [split; [exact G|auto]|]].
+    cbn [npost]. split; [|split; [split; [exact G|apply ipge_keep; [exact G|reflexivity]]|]].
     + apply (wfm_nostore s s' W eq_refl G); unfold s'; cbn [hp acc g_slots g_bind with_globals]; auto.
       * apply (w_heap s W).
       * unfold gbind_ok. cbn [g_bind g_slots with_globals]. intros a k. cbn [assoc_find]. rewrite len_snoc. destruct (p =? a).
@@ -47,7 +47,7 @@ Proof.
   intros W Hv. set (s' := with_globals s _ _).
   assert (G : grow0 s s').
   { apply grow0_nostore; unfold s'; cbn [st hp scap g_slots with_globals]; auto; try lia; try (rewrite EnvProofs.list_set_len; lia). }
-  cbn [npost]. split; [|split; [split; [exact G|auto]|exact I]].
+  cbn [npost]. split; [|split; [split; [exact G|apply ipge_keep; [exact G|reflexivity]]|exact I]].
   apply (wfm_nostore s s' W eq_refl G); unfold s'; cbn [hp acc g_slots g_bind with_globals]; auto.
   - apply (w_heap s W).
   - unfold gbind_ok. cbn [g_bind g_slots with_globals]. intros a k H. rewrite EnvProofs.list_set_len. apply (w_gbind s W a k H).
@@ -80,7 +80,7 @@ Proof.
     - intros b i C. rewrite Hal; [exact C|]. eapply lam_allocated; [apply (w_heap s W)|exact C].
     - intros i. apply tset_keeps. }
   assert (Vl : vwf s' (VLambda lid)) by (cbn [vwf]; change (st s') with x; rewrite Lx; discriminate).
-  cbn [npost]. split; [|split; [split; [exact G|auto]|]].
+  cbn [npost]. split; [|split; [split; [exact G|apply ipge_keep; [exact G|reflexivity]]|]].
   - apply (wfm_upd s s' W G); unfold s', x; cbn [hp st acc g_slots g_bind with_store with_heap strs vecs envs lams conts]; auto.
     + apply (w_gbind s W).
     + intros b. destruct (Hc b) as [H|H]; [left; exact H|right; rewrite H; exact Vl].
@@ -162,7 +162,7 @@ Qed.
 Lemma np_dec_ip s : wfm s -> ipge s -> npo0 s (dec_ip s) T_.
 Proof.
   intros W Hi. unfold dec_ip. destruct (snd (ip s) =? 0) eqn:E.
-  - apply N.eqb_eq in E. unfold ipge in Hi. lia.
+  - apply N.eqb_eq in E. destruct Hi as [Hi _]. lia.
   - cbn [npost0]. split; [apply wfm_with_ip, W|]. split; [apply grow0_with_ip|exact I].
 Qed.
 
@@ -179,17 +179,17 @@ Proof.
   apply np_wfm_stack, W.
 Qed.
 
-Lemma np_to_continuation s : wfm s -> sp s < scap s -> lamcell s (fst (ip s)) -> ipge s ->
+Lemma np_to_continuation s : wfm s -> sp s < scap s -> ipge s ->
   npo s (to_continuation s) V.
 Proof.
-  intros W Hsp Hl Hi. unfold to_continuation, new_cont.
+  intros W Hsp [Hi Hl]. unfold to_continuation, new_cont.
   set (k := mk_cont _ _ _ _ _). set (cid := next_id (st s)). set (x := mk_store _ _ _ _ _ _ _).
   set (s' := with_store s x).
   assert (G : grow0 s s').
   { constructor; unfold s', x; cbn [hp st scap g_slots with_store strs vecs envs lams conts]; auto; try lia.
     intros i. apply tset_keeps. }
   assert (Kx : tget (conts x) cid = Some k) by (unfold x; cbn [conts]; apply tget_tset_same).
-  cbn [npost]. split; [|split; [split; [exact G|auto]|]].
+  cbn [npost]. split; [|split; [split; [exact G|apply ipge_keep; [exact G|reflexivity]]|]].
   - apply (wfm_upd s s' W G); unfold s', x; cbn [hp st acc g_slots g_bind scap with_store strs vecs envs lams conts]; auto.
     + apply (w_heap s W).
     + apply (w_gbind s W).
@@ -220,7 +220,7 @@ Proof.
       destruct (list_get (k_stack k) (i - 0)) as [v|] eqn:Ev; [|right; exact I];
       right; apply (w_vals s W); eapply ip_cont; eassumption
   | |- _ \/ vwf _ VUndef => right; exact I
-  | |- ipge _ -> ipge _ => intros _; exact Hk2
+  | |- ipge _ -> ipge _ => intros _; split; [exact Hk2|exact Hk1]
   | |- lamcell _ _ => exact Hk1
   | |- wfm _ => exact W
   | |- _ => idtac
